@@ -146,6 +146,8 @@ def w_step(ctx, rng, idx):
     S, L, M = scale(S, L, M, f)
     scheme = SCHEMES[idx % 4]
     h = float(rng.uniform(0.05, 0.6))
+    if rng.random() < 0.3:  # the step size as a NumPy scalar of any precision (float16 / float32 values are exactly representable doubles)
+        h = [np.float64, np.float32, np.float16][int(rng.integers(0, 3))](h)
     N = int(rng.integers(1, 4))
     nz = [0, 2][int(rng.integers(0, 2))] if kind != 'general' or rng.random() < 0.5 else 0
     x0 = state(rng, dims, cplx or rng.random() < 0.3)
@@ -165,13 +167,15 @@ def w_step(ctx, rng, idx):
             x0 = float(10 ** rng.uniform(-14, 6)) * x0
     fn = getattr(ode, scheme + '_splitting')
     ctx.describe({'op': scheme + '_splitting', 'dims': dims, 'homogeneous': hom, 'kind': kind, 'complex': cplx, 'h': h, 'steps': N, 'normalize': nz, 'ranks': x0.ranks})
-    kw = dict(threshold=[0.0, 1e-14, 1e-12][int(rng.integers(0, 3))], max_rank=10 ** 4, normalize=nz)
+    kw = dict(threshold=[0.0, 1e-14, 1e-12][int(rng.integers(0, 3))], max_rank=10 ** 4 if rng.random() < 0.7 else max(gen.max_ranks(dims, [1] * d)), normalize=nz)
     if scheme in ('lie', 'strang') and rng.random() < 0.25:  # precomputed propagators
         coeff = [1, 1] if scheme == 'lie' else [0.5, 1]
         with probe.oracle():
             kw['K'] = getattr(ode, '__splitting_propagators')(copyc(S), copyc(L), copyc(I), copyc(M), d, h, coeff)
     if scheme == 'lie' and rng.random() < 0.3:
         kw['tmp_rank'] = int(rng.integers(10 ** 3, 10 ** 4))
+    if nz > 0 and rng.random() < 0.3:
+        kw['max_rank'] = int(rng.integers(1, 4))  # a rank bound that binds: only structure and the normalisation clause are asserted then
     call('ode.' + scheme + '_splitting', fn, copyc(S), copyc(L), copyc(I), copyc(M), x0, h, N, prop=P, tags=['scheme=' + scheme], **kw)
     if rng.random() < 0.5:
         # the very same component arrays and initial state serve several calls in a row (another step size, another scheme):
